@@ -205,11 +205,23 @@ def outdoor_under_greenhouses_direct(c, t, label, got, out_list):
                             clause="series_outdoor_crops_under_greenhouses")
 
 
+def as_pipeline_floats(c):
+    """the real pipeline hands the baselines over as numpy float64 (read from the country table by pandas); a zero baseline
+    then follows the code's own 'if production is zero' branch instead of raising ZeroDivisionError on a Python float"""
+    np = supplies._S["np"]
+    c2 = dict(c)
+    for k in ("BASELINE_CROP_KCALS", "BASELINE_CROP_FAT", "BASELINE_CROP_PROTEIN"):
+        if k in c2 and not isinstance(c2[k], dict):
+            c2[k] = np.float64(c2[k])
+    return c2
+
+
 def job_direct(chunk):
     pid = _PID[0]
     out = {"v": [], "n": 0, "states": 0, "rejected": 0, "digests": set()}
     for label, c, t, names, scaling in chunk:
-        vs, got, status = supplies.check_direct(c, t, label, want=(pid,), names=names, scaling=scaling)
+        with supplies._S["np"].errstate(all="ignore"):
+            vs, got, status = supplies.check_direct(as_pipeline_floats(c), t, label, want=(pid,), names=names, scaling=scaling)
         if got is None:
             out["rejected"] += 1
             continue
@@ -346,7 +358,8 @@ def replay(rp, pid="C08"):
     c = rp["constants"]
     np = supplies._S["np"]
     t = {"FISH_PERCENT_MONTHLY": np.array(rp["time"]["FISH_PERCENT_MONTHLY"])}
-    vs, got, _ = supplies.check_direct(c, t, rp["label"], want=(pid,), scaling=True)
+    with np.errstate(all="ignore"):
+        vs, got, _ = supplies.check_direct(as_pipeline_floats(c), t, rp["label"], want=(pid,), scaling=True)
     if pid == "C08" and got is not None and "outdoor_crops" in got:
         outdoor_under_greenhouses_direct(c, t, rp["label"], got, vs[pid])
     return vs[pid]
